@@ -43,7 +43,7 @@ META = dict(
         "parses completely (JSON / zip with clean testzip and readable nfo.json / exact payload bytes / PDF with pages / ODF package); a "
         "producer that reports success after an injected error must have left a complete file. Layouts: output next to the temporary directory, "
         "and (when the host has a second writable file system, e.g. /dev/shm) output on another file system than TMPDIR - all producers in the "
-        "thorough tier, the four cheap ones in the quick tier. Non-trivial: the fault fired inside the "
+        "thorough tier, the four cheap ones with a previous version in place in the quick tier. Non-trivial: the fault fired inside the "
         "bracket (between the producer's first and last file-system call)."
     ),
     assumptions=[
@@ -295,7 +295,7 @@ def run_shard(ctx):
                 tasks.append((producer, prestate, fault, name, k, "same-fs"))
     if calib.get("_other_fs_root"):
         for producer in (PRODUCERS if ctx.thorough else OTHER_FS_PRODUCERS):
-            for prestate in ("absent", "previous"):
+            for prestate in (("absent", "previous") if ctx.thorough else ("previous",)):
                 for fault, name, k in points(calib, producer + "@other-fs", ctx.thorough):
                     tasks.append((producer, prestate, fault, name, k, "other-fs"))
     for i, (producer, prestate, fault, name, k, layout) in enumerate(tasks):
